@@ -5,9 +5,8 @@ the real code with exactly ONE defect repaired in memory (harness/tasks/c13.py: 
 whether this failure is the listed finding.  A failure that the single repair does not cure is not
 attributed (and is therefore reported as a violation).
 
-    F5    get_func_moment tests the key "Expt": Sin/Cos together with Exp is not rejected and the
-          Exp power is silently ignored.  Cure: with the guard repaired the call raises
-          "Exponential and trigonometric moments cannot be mixed".
+    (F5, the "Expt" typo in the guard of get_func_moment, was repaired in /repo e78913c; it has no
+    attribution any more: a recurrence is a violation.)
     F131  conditioned functional assignment `s = Sin(u) | cond : s`: the new function value and the
           default share the symbol `s`, the condition is lost.  Cure: with a separate placeholder
           for the new value the closed forms agree with the oracle.
@@ -20,7 +19,6 @@ attributed (and is therefore reported as a violation).
           also in exact mode.  Cure: with the literals converted the values agree.
 """
 from . import c13_lib as L
-from .common import model_batch
 from .pool import run_tasks
 
 
@@ -51,65 +49,6 @@ def _program_agrees(record, repairs):
             if not L.close(act, mp.mpf(e), mp.mpf(sc), record["mode"]):
                 return False
     return True
-
-
-def attr_f5(prop, record):
-    kind = record.get("kind")
-    if kind == "moment":
-        pw = record["powers"]
-        if not (("Sin" in pw or "Cos" in pw) and "Exp" in pw):
-            return None
-        ans = model_batch([{"op": "func_plan", "powers": [[k, int(v)] for k, v in sorted(pw.items())]}])[0]
-        if not (ans.get("ok") and ans["route_coded"] == "trig" and ans["route_intended"] == "error:mixed"):
-            return None
-        res = _run("func_moment_repaired", {"family": record["family"], "params": record["params"],
-                                            "powers": pw, "repairs": ["guard"]})
-        if res and res.get("raised") and "cannot be mixed" in res["error"]["message"]:
-            return (f"get_func_moment({record['family']}({', '.join(record['params'])}), {pw}) ignores the Exp power "
-                    f"(guard tests \"Expt\"): returned {record.get('actual')}, true value {record.get('expected')}")
-        return None
-    if kind == "program":
-        try:
-            prog = L.parse_prob(record["text"])
-        except Exception:
-            return None
-        if not _has_mixed_draw(prog):
-            return None
-        res = _run("analyze_repaired", {"text": record["text"], "goals": record["goals"], "nmax": record["nmax"],
-                                        "settings": {"exact_func_moments": record["mode"] == "exact"},
-                                        "repairs": ["guard"]})
-        if not res:
-            return None
-        for g in res.get("goals", []):
-            err = g.get("error") or {}
-            if err.get("etype") == "FunctionalAssignmentException" and "cannot be mixed" in err.get("message", ""):
-                return ("program multiplies Sin/Cos and Exp of one draw; accepted because the guard tests \"Expt\" "
-                        f"(E at n=1: polar {record.get('actual')}, true {record.get('expected_at')})")
-        return None
-    return None
-
-
-def _has_mixed_draw(prog):
-    """some variable is the argument of both a Sin/Cos and an Exp assignment (directly or by reference)"""
-    trig, expo = set(), set()
-    alias = {}
-
-    def walk(stmts):
-        for st in stmts:
-            if st[0] == "assign":
-                for v, rhs in zip(st[1], st[2]):
-                    if rhs[0] == "poly" and rhs[1].__class__.__name__ == "Name":
-                        alias[v] = alias.get(rhs[1].id, rhs[1].id)
-                    if rhs[0] == "func" and rhs[2].__class__.__name__ == "Name":
-                        a = alias.get(rhs[2].id, rhs[2].id)
-                        (expo if rhs[1] == "Exp" else trig).add(a)
-            else:
-                walk(st[2])
-                walk(st[3])
-
-    walk(prog["init"])
-    walk(prog["body"])
-    return bool(trig & expo)
 
 
 def _has_conditioned_func(prog):
